@@ -75,7 +75,8 @@ case "$ID" in
       rm -f "$ROOT/replays/C15/hang.json"
       timeout 600 "$B/$v/release/mc" c15-worker "$B/c15_$v"; rc=$?
       if [ $rc -eq 1 ] && [ -f "$ROOT/replays/C15/hang.json" ]; then exit 1; fi  # hang watchdog of the worker reported the violation
-      if [ $rc -ne 0 ]; then echo "MACHINERY: C15 worker $v failed (exit $rc)"; exit 3; fi
+      if [ $rc -ge 128 ] && [ $rc -ne 137 ]; then echo "signal $((rc-128))" > "$B/c15_$v.crash";  # killed by a signal (not by the timeout)
+      elif [ $rc -ne 0 ]; then echo "MACHINERY: C15 worker $v failed (exit $rc)"; exit 3; fi
       W="$W,$B/c15_$v"
     done
     C15_WORKERS="$W" exec "$B/rel/release/mc" C15 "$@" ;;
